@@ -80,8 +80,9 @@ def run(ctx):
             res.nontrivial.add(json.dumps(prog, sort_keys=True))
         if P["error"] or D["error"]:
             res.count("flow-error")
-            if P["error"] != D["error"]:
-                fail("flows raise differently", prog, {"P": P["error"], "D": D["error"]})
+            # no program of this vocabulary raises on a healthy tree (neither flow)
+            fail("flows raise differently" if P["error"] != D["error"] else "both flows raise",
+                 prog, {"P": P["error"], "D": D["error"]})
             return P, D
         # ---- oracle: real vs real
         for i, (sp, sd) in enumerate(zip(P["segs"] + [P["close"]], D["segs"] + [D["close"]])):
